@@ -119,6 +119,25 @@ PROPS["C08"] = {
 }
 
 
+PROPS["C12"] = {
+    "exhaustive": [
+        {"spec": "RTMembership.tla", "cfg": "RTMembership_quick.cfg"},
+        {"spec": "RTMembership.tla", "cfg": "RTMembership_filter.cfg"},
+        {"spec": "RTMembership.tla", "cfg": "RTMembership_thorough.cfg", "tier": "thorough", "timeout": 3000},
+        {"spec": "RTMembership.tla", "cfg": "RTMembership_neg_add.cfg", "expect": "violation"},
+        {"spec": "RTMembership.tla", "cfg": "RTMembership_neg_cancel.cfg", "expect": "violation"},
+        {"spec": "RTMembership.tla", "cfg": "RTMembership_neg_drop.cfg", "expect": "violation"},
+    ],
+    "drivers": [{"test": "TestRTMembership", "trace_spec": "RTTrace.tla", "trace_cfg": "RTTrace.cfg", "inv_cfg": {"C12": "RTTrace_C12.cfg"}}],
+    "assumptions": COMMON_ASSUME[:1] + [
+        "identify / protocol events are emitted on the real event bus with the peerstore protocols set accordingly",
+        "capacity-driven replacement inside go-libp2p-kbucket is outside the property: only 'member => answered' and 'failed => leaves' are judged",
+        "eviction is required for failures delivered while a user lookup is in its search phase and uncancelled, for failed liveness pings of members, and for protocol withdrawal; failures inside the refresh's own lookups are not judged (their phase is not observable)",
+    ],
+    "explanation": "RTMembership.tla (admission, eviction, refresh request/answer handshake incl. shutdown) is model-checked with fairness; the real IpfsDHT is driven through identify/protocol events, probes, lookups with failing peers, cancellations, refreshes, clock advances and Close at arbitrary points; the routing table is logged at every quiescent point and validated against RTTrace.tla.",
+}
+
+
 def overlay_file(scratch, spec):
     return None
 
@@ -291,6 +310,62 @@ def mut_c03_bg(run):
     return r
 
 
+def mut_c12_stranger(run):
+    if "filterno" not in run[0]:
+        return None
+    n = run[0]["N"]
+    qs = [i for i, ev in enumerate(run) if ev["e"] == "Q"]
+    if len(qs) < 3:
+        return None
+    known = set(run[0]["rt"])
+    for ev in run:
+        if ev["e"] == "Deliver" and ev.get("out") == "ok":
+            known.add(ev["p"])
+    cand = [p for p in range(1, n + 1) if p not in known]
+    if not cand:
+        return None
+    r = copy.deepcopy(run)
+    for i in qs[2:]:
+        r[i]["rt"] = sorted(set(r[i]["rt"]) | {cand[0]})
+    return r
+
+
+def mut_c12_self(run):
+    if "filterno" not in run[0]:
+        return None
+    i = _find(run, "Q")
+    r = copy.deepcopy(run)
+    r[i]["rt"] = [0] + r[i]["rt"]
+    return r
+
+
+def mut_c12_noevict(run):
+    """Keep an evicted member in the table."""
+    if "filterno" not in run[0]:
+        return None
+    prev = None
+    for i, ev in enumerate(run):
+        if ev["e"] == "Q":
+            if prev is not None:
+                gone = set(run[prev]["rt"]) - set(ev["rt"])
+                between = run[prev:i]
+                if gone and any(x["e"] == "Deliver" and x.get("out") == "fail" and x.get("p") in gone and x.get("cls") != "refresh" for x in between):
+                    r = copy.deepcopy(run)
+                    r[i]["rt"] = sorted(set(r[i]["rt"]) | gone)
+                    return r
+            prev = i
+    return None
+
+
+def mut_c12_lost_refresh(run):
+    if "filterno" not in run[0]:
+        return None
+    i = _find(run, "RefreshAns")
+    if i < 0:
+        return None
+    return [copy.deepcopy(ev) for j, ev in enumerate(run) if j != i]
+
+
 MUTATIONS = {
     "C01": [mut_c01_unsorted, mut_c01_drop_nearest, mut_c01_resp_event],
     "C02": [mut_c02_unasked],
@@ -298,6 +373,7 @@ MUTATIONS = {
     "C04": [mut_c04_invalid_emit, mut_c04_worse_final],
     "C06": [mut_c06_missing_recipient, mut_c06_foreign_provider],
     "C08": [mut_c08_unnamed, mut_c08_dup],
+    "C12": [mut_c12_stranger, mut_c12_self, mut_c12_noevict, mut_c12_lost_refresh],
 }
 
 
